@@ -171,6 +171,9 @@ DRecvBenchmarkFailure(h) ==
     /\ UNCHANGED <<drv, hist>> /\ DUnch
     /\ Act("DRecvBenchmarkFailure", h, 0)
 
+(* DriverActor.receiveMsg_PoisonMessage has no action here: a PoisonMessage reaches the DriverActor only when a handler of a  *)
+(* preparator fails twice without no_retry, and the only such handler is receiveMsg_PoisonMessage itself (a third fault).    *)
+
 (* receiveMsg_ChildActorExited: "A track preparator has exited." *)
 DRecvChildExited(h) ==
     /\ t2d[h] # <<>> /\ Head(t2d[h]).k = "ChildActorExited"
